@@ -39,7 +39,13 @@ OW(c) == IF c.pad = "SAME" THEN (c.w + c.sw - 1) \div c.sw ELSE (c.w - EKw(c)) \
 OC(c) == IF c.op = "CONV_2D" THEN c.oc ELSE IF c.op = "DEPTHWISE_CONV_2D" THEN c.c * c.mult ELSE c.c
 Ifm(c) == IF c.op \in K4 THEN <<c.b, c.h, c.w, c.c>> ELSE c.s1
 Ifm2(c) == IF c.op \in ELT THEN c.s2 ELSE <<>>
-Ofm(c) == IF c.op \in K4 THEN <<c.b, OH(c), OW(c), OC(c)>> ELSE c.so
+\* MEAN: reduced axes become 1 (keep_dims) or disappear
+RECURSIVE DropAxes(_, _, _)
+DropAxes(s, A, i) == IF i > Len(s) THEN <<>>
+                     ELSE IF (i - 1) \in A THEN DropAxes(s, A, i + 1) ELSE <<s[i]>> \o DropAxes(s, A, i + 1)
+MeanOut(c) == IF c.keep THEN [i \in 1..Len(c.s1) |-> IF (i - 1) \in Rng(c.axes) THEN 1 ELSE c.s1[i]]
+              ELSE DropAxes(c.s1, Rng(c.axes), 1)
+Ofm(c) == IF c.op \in K4 THEN <<c.b, OH(c), OW(c), OC(c)>> ELSE IF c.op = "MEAN" THEN MeanOut(c) ELSE c.so
 Wts(c) == IF c.op = "CONV_2D" THEN <<c.oc, c.kh, c.kw, c.wic>>
           ELSE IF c.op = "DEPTHWISE_CONV_2D" THEN <<1, c.kh, c.kw, c.c * c.mult>>
           ELSE IF c.op = "FULLY_CONNECTED" THEN <<c.oc, c.wic>> ELSE <<>>
@@ -74,6 +80,23 @@ WSum(c) ==
     IF c.wfill = "small" THEN T3(WElems(c) <= WSumMax[c.op])
     ELSE IF c.wfill = "max" /\ c.wt = "int8" THEN T3(WElems(c) <= WSumMax[c.op] \div 127)
     ELSE IF WElems(c) <= WSumMax[c.op] \div 128 THEN "T" ELSE "U"
+
+\* MEAN axis rule of the report
+MeanAxis(c) ==
+    LET r == Len(c.s1)
+        hwc == {c.s1[i] : i \in (r - 2)..r}
+    IN IF r = 2 THEN "T"
+       ELSE IF r \notin {3, 4} THEN "U"
+       ELSE T3(\A a \in Rng(c.axes) :
+                  /\ (r = 4 /\ a = 0) => c.s1[1] = 1
+                  /\ a = r - 1 => 1 \in hwc)
+MeanProd(c) ==
+    LET lim == IF c.dt = "int16" THEN MeanProdI16 ELSE IF c.dt = "uint8" THEN MeanProdU8 ELSE MeanProdI8
+    IN T3(ProdSeq([i \in 1..Len(c.axes) |-> c.s1[c.axes[i] + 1]]) <= lim)
+MeanWidth(c) ==
+    LET r == Len(c.s1) IN
+    IF r \in {3, 4} THEN T3((r - 2) \notin Rng(c.axes) \/ c.s1[r - 1] <= MeanWMax)
+    ELSE IF \A d \in Rng(c.s1) : d <= MeanWMax THEN "T" ELSE "U"
 
 Eval(id, c) ==
     CASE id = "types" -> T3(DataTypes(c) \subseteq TypeSet)
@@ -117,6 +140,11 @@ Eval(id, c) ==
       [] id = "rs_quant" -> T3(c.qmatch)
       [] id = "rs_elems" -> T3(ProdSeq(c.s1) = ProdSeq(c.so))
       [] id = "rs_const" -> T3(c.sconst)
+      [] id = "mean_rank" -> T3(Len(c.s1) >= MeanMinRank)
+      [] id = "mean_axis" -> MeanAxis(c)
+      [] id = "mean_prod" -> MeanProd(c)
+      [] id = "mean_width" -> MeanWidth(c)
+      [] id = "mean_depth" -> T3((Len(c.s1) - 1) \notin Rng(c.axes) \/ c.s1[Len(c.s1)] <= MeanDMax)
       \* kinds the generated networks always satisfy (attributes present, static shapes, finite scales,
       \* integer strides ...): stated as an assumption of the generator
       [] OTHER -> "T"
@@ -132,7 +160,7 @@ Z == [op |-> "", dt |-> "int8", dt2 |-> "int8", odt |-> "int8", wt |-> "int8", b
       b |-> 1, h |-> 1, w |-> 1, c |-> 1, kh |-> 1, kw |-> 1, sh |-> 1, sw |-> 1, dh |-> 1, dw |-> 1,
       pad |-> "SAME", oc |-> 1, mult |-> 1, wic |-> 1, wconst |-> TRUE, wfill |-> "rand", brank |-> 1, bbits |-> 11,
       faf |-> "NONE", paq |-> "none", wzp |-> 0, s1 |-> <<>>, s2 |-> <<>>, so |-> <<>>, hasq |-> TRUE, qmatch |-> TRUE,
-      sconst |-> TRUE, knd |-> FALSE, axis |-> "nominal", axis2 |-> ""]
+      sconst |-> TRUE, knd |-> FALSE, axes |-> <<>>, keep |-> TRUE, axis |-> "nominal", axis2 |-> ""]
 
 Nom(op) ==
     CASE op = "CONV_2D" -> [Z EXCEPT !.op = op, !.h = 9, !.w = 13, !.c = 8, !.kh = 3, !.kw = 3, !.oc = 8, !.wic = 8,
@@ -144,6 +172,9 @@ Nom(op) ==
       [] op = "FULLY_CONNECTED" -> [Z EXCEPT !.op = op, !.s1 = <<1, 24>>, !.so = <<1, 10>>, !.oc = 10, !.wic = 24,
                                              !.bt = "int32"]
       [] op = "RESHAPE" -> [Z EXCEPT !.op = op, !.s1 = <<1, 6, 7, 8>>, !.so = <<1, 42, 1, 8>>]
+      [] op = "SQUEEZE" -> [Z EXCEPT !.op = op, !.s1 = <<1, 6, 7, 8>>, !.so = <<6, 7, 8>>]
+      [] op = "EXPAND_DIMS" -> [Z EXCEPT !.op = op, !.s1 = <<1, 7, 8>>, !.so = <<1, 1, 7, 8>>]
+      [] op = "MEAN" -> [Z EXCEPT !.op = op, !.s1 = <<1, 6, 7, 8>>, !.axes = <<1, 2>>]
 
 Apply(r, u) == [f \in DOMAIN r |-> IF f \in DOMAIN u THEN u[f] ELSE r[f]]
 
@@ -260,8 +291,32 @@ ReshapeU ==
   \cup {[s1 |-> <<b2, 6, 7, 8>>, so |-> <<b2, 42, 1, 8>>, axis |-> "batch"] : b2 \in {1, 2}}
   \cup {[s1 |-> <<1, v, 1, 2>>, so |-> <<1, 2, v, 1>>, axis |-> "dim"] : v \in DimPts}
 
+MemOnlyU(op) ==
+       {[hasq |-> FALSE, axis |-> "noquant"]}
+  \cup {[dt |-> t, odt |-> t, hasq |-> t # "float32", axis |-> "dtype"] : t \in Types}
+  \cup {[qmatch |-> FALSE, axis |-> "quant_differs"]}
+  \cup {[so |-> IF op = "SQUEEZE" THEN <<6, 7, 7>> ELSE <<1, 1, 7, 7>>, axis |-> "elements_differ"]}
+
+MeanShapes == {<<<<1, 6, 7, 8>>, <<1, 2>>>>, <<<<1, 6, 7, 8>>, <<1>>>>, <<<<1, 6, 7, 8>>, <<2>>>>, <<<<1, 6, 7, 8>>, <<3>>>>,
+               <<<<1, 1, 7, 8>>, <<3>>>>, <<<<1, 6, 1, 8>>, <<3>>>>, <<<<1, 6, 7, 1>>, <<3>>>>, <<<<1, 6, 7, 8>>, <<0>>>>,
+               <<<<2, 6, 7, 8>>, <<0>>>>, <<<<1, 6, 7, 8>>, <<1, 2, 3>>>>, <<<<1, 1, 7, 8>>, <<1, 2, 3>>>>,
+               <<<<6, 7, 8>>, <<2>>>>, <<<<1, 7, 8>>, <<2>>>>, <<<<6, 1, 8>>, <<2>>>>, <<<<6, 7, 1>>, <<2>>>>,
+               <<<<1, 7, 8>>, <<0, 1>>>>, <<<<1, 7, 8>>, <<1>>>>, <<<<1, 8>>, <<1>>>>, <<<<1, 8>>, <<0>>>>, <<<<8>>, <<0>>>>}
+MeanU ==
+       {[hasq |-> FALSE, axis |-> "noquant"]}
+  \cup {[dt |-> t, odt |-> t, hasq |-> t # "float32", axis |-> "dtype"] : t \in Types}
+  \cup {[s1 |-> p[1], axes |-> p[2], keep |-> k, axis |-> "mean_axes"] : p \in MeanShapes, k \in BOOLEAN}
+  \cup {[s1 |-> <<1, 8>>, axes |-> <<0, 1>>, axis |-> "mean_axes"]}
+  \cup {[s1 |-> <<1, a, b2, 2>>, dt |-> "int16", odt |-> "int16", axis |-> "mean_product"] :
+            a \in {MeanProdI16 \div 256 - 1, MeanProdI16 \div 256}, b2 \in {256, 257}}
+  \cup {[s1 |-> <<1, 2, v, 2>>, axes |-> <<2>>, axis |-> "mean_width"] : v \in Points(1, MeanWMax)}
+  \cup {[s1 |-> <<1, 2, MeanWMax + 1, 2>>, axes |-> <<1>>, axis |-> "mean_width_not_reduced"]}
+  \cup {[s1 |-> <<1, 1, 1, v>>, axes |-> <<3>>, axis |-> "mean_depth"] : v \in Points(1, MeanDMax)}
+
 Updates(op) ==
     CASE op = "CONV_2D" -> ConvU
+      [] op \in {"SQUEEZE", "EXPAND_DIMS"} -> MemOnlyU(op)
+      [] op = "MEAN" -> MeanU
       [] op = "DEPTHWISE_CONV_2D" -> DwU
       [] op = "MAX_POOL_2D" -> MaxPoolU
       [] op = "AVERAGE_POOL_2D" -> AvgPoolU
